@@ -22,7 +22,8 @@ const none = -1
 type Person struct {
 	Ptr, Name                string
 	Sex                      []string
-	Birth, Bapm, Death, Buri int // day numbers, none = -1
+	Birth, Bapm, Death, Buri int    // day numbers, none = -1
+	BirthText                string // when set, the BIRT DATE is written with this text (unparsable dates)
 	Extra                    []string
 }
 
@@ -84,7 +85,11 @@ func (d *Doc) Text() string {
 			for _, s := range p.Sex {
 				fmt.Fprintf(&sb, "1 SEX %s\n", s)
 			}
-			ev("BIRT", p.Birth)
+			if p.BirthText != "" {
+				fmt.Fprintf(&sb, "1 BIRT\n2 DATE %s\n", p.BirthText)
+			} else {
+				ev("BIRT", p.Birth)
+			}
 			ev("BAPM", p.Bapm)
 			ev("DEAT", p.Death)
 			ev("BURI", p.Buri)
@@ -176,6 +181,8 @@ func slots(variant string) []slot {
 			{"same-day-as-mother", set("C1", func(p *Person) { p.Birth = def.person("P2").Birth })},
 			{"none", set("C1", func(p *Person) { p.Birth = none })},
 			{"baptism-only", set("C1", func(p *Person) { p.Birth = none; p.Bapm = b + 20 })},
+			{"unparsable", set("C1", func(p *Person) { p.BirthText = "31 Feb 1826" })},
+			{"phrase", set("C1", func(p *Person) { p.BirthText = "(spring)" })},
 		}})
 	}
 	if has("C2") {
@@ -185,6 +192,7 @@ func slots(variant string) []slot {
 			alts = append(alts, alt{fmt.Sprintf("C1%+dd", dl), set("C2", func(p *Person) { p.Birth = def.person("C1").Birth + dl })})
 		}
 		alts = append(alts, alt{"none", set("C2", func(p *Person) { p.Birth = none })})
+		alts = append(alts, alt{"unparsable", set("C2", func(p *Person) { p.BirthText = "garbage" })})
 		out = append(out, slot{"C2.birth", alts})
 	}
 	if has("C3") {
